@@ -233,7 +233,8 @@ def main(argv=None):
             for o in ctx.obs:
                 if o.status is None:
                     raise AnalysisBroken("obligation %s/%s left undecided" % (o.rule, o.fn))
-            extra.update(selftest(pid, ctx))
+            if not os.environ.get("VERIF_NO_SELFTEST"):
+                extra.update(selftest(pid, ctx))
     except AnalysisBroken as e:
         print("ANALYSIS-BROKEN property=%s %s" % (pid, e))
         return 2
